@@ -182,6 +182,43 @@ EXTRA2 = {
 for _pid, (_t, _x) in EXTRA2.items():
     CLAIMS[_pid]["technique"] += _t
     CLAIMS[_pid]["text"] += _x
+COMPOSE = "whole-construction composition (the real Python objects interpreted over stand-in primitives of the checker, bytes compared with the standard written independently)"
+EXTRA3 = {
+ "C01": ("; " + COMPOSE + " for EAX, SIV, CCM, GCM, OCB and (X)ChaCha20-Poly1305",
+         " Also decided on tables: for every length class of message and header, nonce and tag length, one-shot and in pieces, the six AEAD constructions produce the ciphertext and tag of their standard, a receiver object accepts the genuine tuple and refuses every single-byte modification of ciphertext, tag or header and a truncated tag; CCM's header-length encoding at the 2^16 - 2^8 threshold."),
+ "C02": ("; " + COMPOSE + " for the AEAD modes and OpenPGP-CFB; streaming-length rule on the clang AST (no 32-bit counter meets a size_t length in an exported streaming function)",
+         " Also decided: OpenPGP CFB (RFC 4880 13.9) byte for byte; no exported native streaming function counts a caller-sized length in a narrower variable."),
+ "C03": ("; streaming-length rule on the clang AST", " Also decided: no native hash update loop counts the caller's length in a variable narrower than size_t."),
+ "C04": ("; RFC 6979 nonce generation incl. the retry branch over hashlib's HMAC; EdDSA sign/verify as a composition against RFC 8032; ec_ws_new_point validation rows on the C evaluator",
+         " Also decided: _compute_nonce equals RFC 6979 3.2 for orders where zero, one and several candidates are out of range; Ed25519 / Ed25519ph / Ed25519ctx / Ed448 signatures equal RFC 8032 over stand-in points and every range / length variant of a signature is refused."),
+ "C05": ("; ec_ws_new_point validation rows on the C evaluator", " Also decided: the native constructor refuses off-curve points and accepts exactly the encodings the Python layer relies on."),
+ "C06": ("; operation sequences of the real EccPoint / EccXPoint classes over a complete toy native library (driver functions interpreted, every observation compared with the group law); Montgomery field layer incl. carry-chain operands and look-alike moduli on the C evaluator; generator-table coverage",
+         " Also decided on the toy curve y^2 = x^3 - 3x + 8 over F_23: the Python point objects always show the current native value, in-place operators change exactly their left operand, copy(), set() and value operators give independent objects, comparison and the neutral element behave as the group law says (EccXPoint: the x-only analogue)."),
+ "C08": ("; export -> import round trips through the real writers and readers (interpreted end to end) on boundary keys found by search; SEC 1 decoding on a complete toy curve; identifier tables against the standards",
+         " Also decided: RSA and DSA keys whose components sit on encoding boundaries survive export and import in every unencrypted format with all components equal and the key unmodified; every point of a toy curve decodes to itself from compressed and uncompressed SEC 1 form; every algorithm identifier (RSA, DSA, PBES, hash -> HMAC one-to-one, 9 curves) is the assigned one."),
+ "C09": ("; the AEAD compositions fed in pieces (rule SEG)", " Also: the AEAD compositions give the one-shot result when fed in pieces."),
+ "C10": ("; CCM cumulative declared-length rows; KangarooTwelve squeezing life cycle on every branch (tree hashing included)",
+         " Also decided: CCM's assoc_len / msg_len bound the cumulative input over all calls; after the first read() of a K12 object a further read() absorbs nothing and update() raises TypeError, for single-chunk, tree and long-customization inputs."),
+ "C11": ("; value rows of the first CTR counter block (Counter.new + factory interpreted together) and of the counter width XChaCha20 hands to chacha20_init; Salsa20 counter carry on the C evaluator",
+         " Also decided: the initial counter block is prefix || value on counter_len bytes in the declared byte order || suffix for widths 1..16; a 24-byte nonce reaches the native layer as a 12-byte nonce (32-bit block counter, overflow reported)."),
+ "C12": ("; S2V update/derive histories over a stand-in CMAC; native hash padding and digests",
+         " Also decided: _S2V.derive() is an observer (calling it again, or continuing with update(), gives S2V of the components so far)."),
+ "C13": ("; DER writer rows incl. the length-form boundaries; PEM round trip with and without the legacy encryption over stand-in DES3 / hashlib MD5; X7 (dictionary look-ups keyed by decoded input), X3 for variable indexes",
+         " Also decided: the DER writers produce X.690 DER at 127/128/255/256 content octets; PEM.decode(PEM.encode(x)) == x for lengths around the cipher block and the base64 line, a wrong passphrase never returns the data."),
+ "C14": ("; look-alike moduli for the specialised Montgomery reductions; getStrongPrime interval rule",
+         " Also decided: moduli that share length and leading or trailing words with P-256/P-384/P-521/Ed448 primes get generic arithmetic; getStrongPrime(N) draws from [sqrt(2) 2^(N-1), 2^N - 1]."),
+ "C15": ("; unseal failure rows from every starting sequence number; ECDH neutral-element rule",
+         " Also decided: a rejected message leaves the sequence number unchanged from sequence 0 as well."),
+ "C16": ("; streaming-length rule on the clang AST; Jacobi symbol rows for a < -n", ""),
+ "C17": ("; constructor/destructor pairing at every SmartPointer site (resolved through branch-local names, class attributes, imports; one library and one translation unit per feasible pair); lifetime of every c_uint8_ptr argument; bounds-checked native mode loops",
+         " Also decided: every native handle is released by the destructor of the library and translation unit that created it on every path; no native call receives the address of a temporary that may be a bytearray."),
+ "C18": ("; consumer intervals of ElGamal.generate and the RSA.generate prime filters", ""),
+ "C19": ("; point-object independence over the toy native library (rule P6); class-level shared objects (rule P2)",
+         " Also decided: copy(), set() and the value operators of EccPoint / EccXPoint never share a native cell; no per-object state (hash, cipher, native handle, written container) is created at class level outside the reviewed table."),
+}
+for _pid, (_t, _x) in EXTRA3.items():
+    CLAIMS[_pid]["technique"] += _t
+    CLAIMS[_pid]["text"] += _x
 CLAIMS["C16"]["text"] = CLAIMS["C16"]["text"].replace(" Bit-for-bit equality of the AES round functions / GHASH multipliers and of libgmp's arithmetic is not decided.", " Equality of the AES round functions / GHASH multipliers beyond the tables, and libgmp's arithmetic, are not decided.")
 CLAIMS["C04"]["note"] += " Two recorded findings are in known_findings.json (status known): C04 sign() without retry on a zero component."
 
